@@ -40,8 +40,7 @@ def syncTick (r : Run) : Run :=
   one (one (one r))   -- three periods (see the harness: stamps of consecutive actions are three passes apart)
 
 /-- a call through the Transport: getConn, then the outcome on that connection -/
-def doCall (r0 : Run) (k : Nat) (addr : Nat) (form : String) (hold : Bool) : Run :=
-  let r := syncTick r0
+def doCallAt (r : Run) (k : Nat) (addr : Nat) (form : String) (hold : Bool) : Run :=
   let (s, res) := getConn r.s addr r.clock
   match res with
   | none => { r with s := s, calls := r.calls ++ [{ k := k, addr := addr, form := form, done := true, err := "dial" }] }
@@ -58,6 +57,9 @@ def doCall (r0 : Run) (k : Nat) (addr : Nat) (form : String) (hold : Bool) : Run
       else
         let s := step s (.stamp id)
         { r with s := s, calls := r.calls ++ [{ k := k, addr := addr, form := form, done := true, connId := carried }] }
+
+def doCall (r0 : Run) (k : Nat) (addr : Nat) (form : String) (hold : Bool) : Run :=
+  doCallAt (syncTick r0) k addr form hold
 
 /-- getConn only: the caller is held between getConn and the call -/
 def hookGet (r0 : Run) (k : Nat) (addr : Nat) : Run :=
@@ -156,6 +158,12 @@ def action (r : Run) (toks : List String) : Option Run :=
       else if form == "call" || form == "go" || form == "rt" || form == "ping" || form == "stream" then some (doCall r k (addrOf a) form false)
       else none
     | none => none
+  | ["pair", a, b, k1, k2] =>
+    -- two calls between the same two housekeeping passes: their connections carry the same stamp and
+    -- go stale in the same pass
+    match k1.toNat?, k2.toNat? with
+    | some k1, some k2 => some (doCallAt (doCallAt (syncTick r) k1 (addrOf a) "call" false) k2 (addrOf b) "call" false)
+    | _, _ => none
   | ["finish", k] => k.toNat?.map (finishCall r)
   | ["hookrel", k] => k.toNat?.map (hookRel r)
   | ["idle", "almost"] => some (idleFor r 210)
